@@ -214,6 +214,34 @@ def insertJob {α : Type} (j : Nat × α) : List (Nat × α) → List (Nat × α
 def sortById {α : Type} (jobs : List (Nat × α)) : List (Nat × α) :=
   jobs.foldr insertJob []
 
+/-- `self._evaluator.submit([{"predictor": p, "X": X} for p in predictors])`: the jobs get consecutive ids
+from the evaluator's job counter (`start`: 0 for a fresh evaluator, larger when the evaluator already served
+earlier calls), in the order of the `predictors` list — whatever kind of object each member is (`α` is
+arbitrary: an in-memory `Predictor` of any class, a `PredictorLoader`, a mixture of them) -/
+def submitJobs {α : Type} (start : Nat) : List α → List (Nat × α)
+  | [] => []
+  | m :: ms => (start, m) :: submitJobs (start + 1) ms
+
+/-- `predictions_from_predictors`: submit in list order, gather in any order (`gathered`), sort by id,
+return the payloads -/
+def predictionsOf {α : Type} (gathered : List (Nat × α)) : List α := (sortById gathered).map (·.2)
+
+/-! ### OnlineSelector.on_done: the masked candidate built from one finished job -/
+
+/-- `buf[i] = v` for the pairs of `ps` in turn (NumPy fancy assignment: a later pair overwrites an earlier one) -/
+def scatter (ps : List (Nat × Rat)) (buf : List (Option Rat)) : List (Option Rat) :=
+  ps.foldl (fun b p => b.set p.1 (some p.2)) buf
+
+/-- the candidate `OnlineSelector.on_done` appends for a finished job that reported the predictions `vals`
+for the samples `idx` of the `S` validation targets: an array shaped like `y`, every entry masked (`none`)
+except the entries `idx`, which hold the reported values — the VALUES THEMSELVES: the model has no notion of
+a storage type, so nothing is rounded, truncated or converted on the way.  `none` = the assignment raises
+(an index outside `y`, or as many values as indexes are not given). -/
+def onlineCandidate (S : Nat) (idx : List Nat) (vals : List Rat) : Option (List (Option Rat)) :=
+  if vals.length = idx.length ∧ idx.all (fun i => decide (i < S)) then
+    some (scatter (idx.zip vals) (List.replicate S none))
+  else none
+
 /-! ### executable checkers for the implementation's own outputs (proved equivalent to their
 specifications in `Proofs/SelectCheck.lean`) -/
 
